@@ -17,10 +17,72 @@ RULE = ("scenario = 1-2 random upstream repositories (1-2 codenames, 1-3 compone
         "with a non-empty fault plan or switch or local fault, distinct by (class, fault kinds, target kind)")
 
 CLASSES = ["none", "transient", "transient", "persistent-required", "persistent-optional", "switch", "local-dir",
-           "transient", "persistent-ignored", "unlisted-uncompressed", "variant-downgrade"]
+           "transient", "persistent-ignored", "unlisted-uncompressed", "variant-downgrade", "after-crash"]
+
+
+def after_crash(chk, sseed):
+    """the run under test starts from what a killed run left behind: an update run is killed while index files are being
+    streamed into skel (torsos of canonical and by-hash files, written straight to their final names); the next run against a
+    healthy upstream must either fail or publish only complete files"""
+    from e2e import fsck as fsckmod
+    rng = random.Random(sseed)
+    w = common.World(rng, 1)
+    clones = []
+    try:
+        repo = w.repos[0]
+        url = repo["url"]
+        for cs in repo["codenames"].values():
+            if rng.random() < 0.7:
+                cs["by_hash"] = True
+        w.run(chooser=vloop.RandomChooser(rng.randrange(1 << 30)))
+        run_e2e.flush_l2(chk, {"scenario_seed": sseed, "class": "after-crash", "run": "first"})
+        new = common.evolve(rng, repo)
+        stores2 = w.stores([new])
+        if common.has_s3(new, w.cfgs[url], stores2[url]):
+            chk.evaluated(None)
+            return
+        budget = [3]
+        seen = [0]
+
+        def pre(apt, config):
+            from core.transport import ScriptedDownloader
+            net = ScriptedDownloader.NET
+
+            def on_event(ev):
+                if ev[0] == "chunk" and "/dists/" in ev[1] and budget[0] > 0:
+                    seen[0] += 1
+                    if rng.random() < 0.25:
+                        budget[0] -= 1
+                        clones.append((ev[1], w.sb.clone(f"crash{len(clones)}")))
+            net.on_event = on_event
+        # small chunks, so that a crash can fall inside a file
+        for k, (data, mt) in list(stores2[url].items()):
+            pass
+        run_e2e.execute(w.sb, [new], stores2, {}, vloop.RandomChooser(rng.randrange(1 << 30)), pre_run=pre)
+        run_e2e.flush_l2(chk, {"scenario_seed": sseed, "class": "after-crash", "run": "killed"})
+        for at, sb in clones:
+            res3 = run_e2e.execute(sb, [new], stores2, {}, vloop.RandomChooser(rng.randrange(1 << 30)))
+            replay = {"scenario_seed": sseed, "class": "after-crash", "crash_at_chunk_of": at, "lines": w.lines}
+            if res3.exit == 0:
+                probs = fsckmod.fsck(runner.mirror_dir(sb, url), w.cfgs[url])
+                if probs:
+                    chk.violation("exit0-fsck-dirty:after-crash", replay, f"run after a run killed while streaming {at}: exit 0 but {probs[0]}")
+                chk.count("antecedent_true(exit0)")
+            run_e2e.flush_l2(chk, replay)
+            chk.evaluated(("after-crash", at.rsplit("/", 1)[-1][:12], res3.exit), sample={"class": "after-crash", "crash_at": at, "exit": res3.exit})
+            chk.count("runs_started_from_the_debris_of_a_killed_run")
+        if not clones:
+            chk.evaluated(None)
+        chk.traces += 1 + len(clones)
+    finally:
+        for _, sb in clones:
+            sb.destroy()
+        w.destroy()
 
 
 def run_one(chk, sseed, cls):
+    if cls == "after-crash":
+        return after_crash(chk, sseed)
     rng = random.Random(sseed)
     seed = rng.randrange(1 << 30)
     nrepos = 1 if rng.random() < 0.7 else 2
